@@ -141,6 +141,15 @@ class StmtMixin(object):
 
     # ------------------------------------------------------------------ assignment
     def st_Assign(self, s, st, fr):
+        c = getattr(self, 'cur_contract', None)
+        if c is not None and c.local_types and isinstance(s.value, ast.List) and not s.value.elts and len(s.targets) == 1 \
+                and isinstance(s.targets[0], ast.Name) and s.targets[0].id in c.local_types and not self.call_stack:
+            # an empty list literal has no element type of its own: the contract declares it
+            from .tys import parse_type
+            ty = parse_type(c.local_types[s.targets[0].id])
+            st1, v = self.new_list(st, [], ty.args[0])
+            yield st1.set(s.targets[0].id, v), FALL
+            return
         for st1, v in self.ev(s.value, st, fr):
             if isinstance(v, Raised):
                 yield st1, ('raise', v.exc)
